@@ -375,7 +375,7 @@ fn main() {
     }
 
     ctx.arm("random", 1800.0);
-    let n = ctx.volume(3_000, 120_000, 6, 300);
+    let n = ctx.volume(8_000, 150_000, 6, 300);
     ctx.run_cases("compress", n, |ctx, _i, rng| {
         let x = gen_input(rng, &recorded, 8192);
         check_compress(ctx, &builtin, &x, Some(rng));
@@ -384,7 +384,7 @@ fn main() {
             ctx.sample(json!({"phase": "compress", "len": x.len(), "input": hex_short(&x), "compressed_len": TEEWORLDS.compressed_len(&x)}));
         }
     });
-    let n = ctx.volume(12_000, 400_000, 10, 600);
+    let n = ctx.volume(30_000, 500_000, 10, 600);
     ctx.run_cases("decompress", n, |ctx, _i, rng| {
         let (input, origin): (Vec<u8>, &str) = match rng.below(7) {
             0 => {
@@ -431,7 +431,7 @@ fn main() {
             ctx.sample(json!({"phase": "decompress", "origin": origin, "len": input.len(), "input": hex_short(&input)}));
         }
     });
-    let n = ctx.volume(20, 1_000, 1, 4);
+    let n = ctx.volume(60, 1_500, 1, 4);
     ctx.run_cases("tables", n, |ctx, _i, rng| {
         let (f, fname) = gen_frequencies(rng);
         let h = match catch(|| Huffman::from_frequencies(&f)) {
